@@ -18,6 +18,7 @@ import (
 	"time"
 
 	"github.com/cenkalti/rain/v2/internal/logger"
+	"github.com/cenkalti/rain/v2/internal/magnet"
 	"github.com/cenkalti/rain/v2/internal/metainfo"
 	"github.com/cenkalti/rain/v2/internal/resumer/boltdbresumer"
 	"github.com/cenkalti/rain/v2/internal/storage"
@@ -149,6 +150,34 @@ func parseTiers(s string) [][]string {
 		out = append(out, ti)
 	}
 	return out
+}
+
+// exportMark compares the tracker tiers of the magnet link the torrent exports (Torrent.Magnet, parsed back with the
+// magnet package) with the tiers the torrent has, as a set of sets; "!export" marks a difference. (A private torrent
+// exports nothing.)
+func exportMark(t *torrent.Torrent, tiers [][]string) string {
+	link, err := t.Magnet()
+	if err != nil {
+		return ""
+	}
+	m, err := magnet.New(link)
+	if err != nil {
+		return "!export"
+	}
+	canon := func(ts [][]string) string {
+		var parts []string
+		for _, ti := range ts {
+			x := append([]string(nil), ti...)
+			sort.Strings(x)
+			parts = append(parts, strings.Join(x, " "))
+		}
+		sort.Strings(parts)
+		return strings.Join(parts, "|")
+	}
+	if canon(m.Trackers) != canon(tiers) {
+		return "!export"
+	}
+	return ""
 }
 
 func showTiers(tiers [][]string) string {
@@ -593,7 +622,7 @@ func (e *regEnv) liveObs() string {
 		}
 		recs = append(recs, strings.Join([]string{
 			t.ID(), t.InfoHash().String(), nameTok(t.Name()), strconv.Itoa(t.Port()), b01(started(t)),
-			showTiers(v.Trackers), plusList(ws), plusList(pe), map[bool]string{false: b01(v.HasInfo), true: "INFOROT"}[v.InfoRot],
+			showTiers(v.Trackers) + exportMark(t, v.Trackers), plusList(ws), plusList(pe), map[bool]string{false: b01(v.HasInfo), true: "INFOROT"}[v.InfoRot],
 			b01(v.StopAfterDownload), b01(v.StopAfterMetadata), b01(v.Sequential), b01(v.CompleteCmdRun),
 			fmt.Sprint(v.Downloaded), fmt.Sprint(v.Uploaded), fmt.Sprint(v.Wasted), fmt.Sprint(v.SeededFor),
 		}, ","))
